@@ -1,5 +1,6 @@
 import HcipyVerif.Lemmas.Layer
 import HcipyVerif.Lemmas.LayerHeap
+import HcipyVerif.Lemmas.ShiftCyc
 
 /-!
 # C15 — Turbulence layers are reproducible and translate rigidly with the wind
@@ -619,6 +620,67 @@ theorem subpixel_offset_decomposition_partial (L : InfL) (t : Rat) :
     L'.center = (L.center.1 + L.vel.1 * (t - L.t), L.center.2 + L.vel.2 * (t - L.t)) := by
   simp only [InfL.evolveWith]
   refine ⟨by ring, by ring, trivial⟩
+
+/-! ## The synthesis hypothesis, executed: `synth` with the exact character into `ℚ[ℤ/M]`
+
+The driver op `C15 synth` runs `Shift.synth` itself with the character `cycChar M : ℚ → ℚ[ℤ/M]` on the real factory's
+frequency axes (in turns), output points and complex coefficients (times the real quadrature weight); the harness
+evaluates the printed coefficient list at `ζ = e^{2πi/M}` and compares with `fourier.backward(C).real` of
+`SpectralNoiseFFT` / `SpectralNoiseMultiscale`.  The two theorems say what that number is. -/
+
+/-- What the driver prints for one point, evaluated at **any** `M`-th root of unity `ζ` of a field of characteristic 0,
+is `synth` over that field with the character `q ↦ ζ^(⌊qM⌋ mod M)` and the coefficients `re + im·ζ^(M/4)`. -/
+theorem synth_cyc_eval {G : Type} [Field G] [CharZero G] (M : Nat) (hM : 0 < M) (ζ : G) (hζ : ζ ^ M = 1)
+    (kx ky cre cim : List Rat) (x y : Rat) :
+    ((List.range M).map fun r =>
+        (((synth (cycChar M) kx ky (List.zipWith Cyc.ofComplex cre cim) x y).coeff r : Rat) : G) * ζ ^ r).sum
+      = synth (fun q => ζ ^ cycExp M q) kx ky (List.zipWith (fun (re im : Rat) => (re : G) + (im : G) * ζ ^ (M / 4)) cre cim) x y := by
+  rw [Cyc.eval_dense ζ hζ hM, synth_map (Cyc.eval ζ) (Cyc.eval_zero ζ) (Cyc.eval_add ζ) (Cyc.eval_mul ζ hζ)]
+  have hχ : (fun q => Cyc.eval ζ (cycChar M q)) = fun q => ζ ^ cycExp M q := by
+    funext q; exact Cyc.eval_mono ζ hζ _
+  have hC : (List.zipWith Cyc.ofComplex cre cim).map (Cyc.eval (M := M) ζ)
+      = List.zipWith (fun (re im : Rat) => (re : G) + (im : G) * ζ ^ (M / 4)) cre cim := by
+    simp only [List.map_zipWith, Cyc.eval_ofComplex]
+  rw [hχ, hC]
+
+/-- **The executed `synth` is the `synth` of the translation theorems.**  For every character `E` of `ℚ` of period 1
+(`E = q ↦ e^{2πi q}`; this is the `χ` of `shift_theorem` / `finite_layer_translates` with the frequencies in turns), if all
+phases `kx[m]·x + ky[n]·y` lie in `(1/M)ℤ` (the driver refuses the request otherwise) and `4 ∣ M`, the printed coefficient
+list evaluated at `ζ = E(1/M)` is `synth E` on the complex coefficients `re + im·E(1/4)`. -/
+theorem synth_cyc_is_character_synth {G : Type} [Field G] [CharZero G] (E : ℚ → G) (hE : ∀ a b, E (a + b) = E a * E b)
+    (h1 : E 1 = 1) (M : Nat) (hM : 0 < M) (h4 : 4 ∣ M) (kx ky cre cim : List Rat) (x y : Rat)
+    (hph : ∀ a ∈ kx, ∀ b ∈ ky, ∃ n : ℤ, (a * x + b * y) * M = n) :
+    ((List.range M).map fun r =>
+        (((synth (cycChar M) kx ky (List.zipWith Cyc.ofComplex cre cim) x y).coeff r : Rat) : G) * E (1 / M) ^ r).sum
+      = synth E kx ky (List.zipWith (fun (re im : Rat) => (re : G) + (im : G) * E (1 / 4)) cre cim) x y := by
+  have hζ : E (1 / M) ^ M = 1 := by
+    rw [← char_nat_mul E hE h1]
+    have : (M : ℚ) * (1 / M) = 1 := by
+      have : (M : ℚ) ≠ 0 := by exact_mod_cast hM.ne'
+      field_simp
+    rw [this, h1]
+  have hi : E (1 / M) ^ (M / 4) = E (1 / 4) := by
+    rw [← char_nat_mul E hE h1]
+    congr 1
+    obtain ⟨k, rfl⟩ := h4
+    have hk : (k : ℚ) ≠ 0 := by
+      have : 0 < k := by omega
+      exact_mod_cast this.ne'
+    rw [Nat.mul_div_cancel_left k (by norm_num)]
+    push_cast
+    field_simp
+  rw [synth_cyc_eval M hM _ hζ, hi]
+  exact synth_congr _ _ _ _ _ _ _ fun a ha b hb => cycExp_agrees E hE h1 hM _ (hph a ha b hb)
+
+/-- the hypotheses are satisfiable: the trivial character, `M = 4`, a 2×1 lattice -/
+example : ∃ E : ℚ → ℚ, (∀ a b, E (a + b) = E a * E b) ∧ E 1 = 1 ∧
+    ∀ a ∈ [(0 : ℚ), 1/4], ∀ b ∈ [(0 : ℚ)], ∃ n : ℤ, (a * 1 + b * 0) * (4 : ℕ) = n :=
+  ⟨fun _ => 1, fun _ _ => by norm_num, rfl, by
+    intro a ha b hb
+    simp only [List.mem_cons, List.not_mem_nil, or_false] at ha hb
+    rcases ha with rfl | rfl <;> subst hb
+    · exact ⟨0, by norm_num⟩
+    · exact ⟨1, by norm_num⟩⟩
 
 /-! ## Generators as heap cells: `deepcopy`, aliasing, a caller-owned generator
 
